@@ -34,6 +34,11 @@ Cases ==
           n \in DataLens, p \in {"allbytes", "zeros", "random"}, g \in BOOLEAN, f \in BOOLEAN }
   \cup { [m |-> "send_json", cls |-> "valid", len |-> n, plane |-> p, neg |-> g, flag |-> TRUE, code |-> 0] :
           n \in {0, 1, 130}, p \in {"dict", "list", "kwargs", "unicode"}, g \in BOOLEAN }
+  \* falsy JSON values are values (null, false, 0, "", []), and a positional object together with keyword arguments is refused
+  \cup { [m |-> "send_json", cls |-> "valid", len |-> 0, plane |-> p, neg |-> g, flag |-> TRUE, code |-> 0] :
+          p \in {"none", "false", "zero", "emptystr", "emptylist"}, g \in BOOLEAN }
+  \cup { [m |-> "send_json", cls |-> "conflict", len |-> 1, plane |-> p, neg |-> FALSE, flag |-> TRUE, code |-> 0] :
+          p \in {"none_kw", "zero_kw", "dict_kw", "emptydict_kw"} }
   \cup { [m |-> mm, cls |-> "valid", len |-> n, plane |-> p, neg |-> g, flag |-> TRUE, code |-> 0] :
           mm \in {"send_ping", "send_pong"}, n \in {0, 1, 124, 125}, p \in {"allbytes", "zeros"}, g \in BOOLEAN }
   \cup { [m |-> "close", cls |-> "valid", len |-> n, plane |-> p, neg |-> g, flag |-> TRUE, code |-> c] :
